@@ -132,7 +132,16 @@ type Scenario struct {
 	// one gets eight at once, so the server loop is held up behind its full queue while the other 13 associations end
 	// (more than the loop's close-notification channel holds) - and then this one ends too.
 	Pileup bool `json:"pileup,omitempty"`
+	// PathAddrs: the clients' addresses are not UDP addresses but path names (a unixgram packet listener): they do not
+	// look like ip:port, and they are different clients all the same
+	PathAddrs bool `json:"path_addrs,omitempty"`
 }
+
+// pathAddr is the address of a unixgram client.
+type pathAddr string
+
+func (pathAddr) Network() string  { return "unixgram" }
+func (a pathAddr) String() string { return string(a) }
 
 var sizeChoices = []int{9, 10, 64, 1200, 2048, 2049, 8999, 9000}
 
@@ -158,6 +167,7 @@ func genScenario(seed int64, i int) *Scenario {
 	}
 	s.Match = r.Intn(3) == 0
 	s.Zones = r.Intn(5) == 0 && s.Handler != "proxy"
+	s.PathAddrs = !s.Zones && s.Handler != "proxy" && r.Intn(6) == 0
 	if i%16 == 5 {
 		s.Pileup, s.Handler, s.Clients, s.EndAfter, s.DelayUs, s.BufSize, s.Match = true, []string{"rec", "closeself"}[r.Intn(2)], 14, 1, 30000, 9000, false
 	}
@@ -278,15 +288,18 @@ func runScenario(c *fw.Ctx, s *Scenario) {
 	defer app.Stop()
 	c.Journal("scenario %s", drive.J(s))
 
-	addrs := make([]*net.UDPAddr, s.Clients)
+	addrs := make([]net.Addr, s.Clients)
 	recs := make([]*hmods.ConnRec, s.Clients)
 	for k := range addrs {
 		addrs[k] = clientAddrZ(k, s.Zones)
-		recs[k] = hmods.Track("udp:" + addrs[k].String())
+		if s.PathAddrs {
+			addrs[k] = pathAddr(fmt.Sprintf("/run/verif/c09-%d-client-%d.sock", addrSeq, k))
+		}
+		recs[k] = hmods.Track(addrs[k].Network() + ":" + addrs[k].String())
 	}
 	defer func() {
 		for _, a := range addrs {
-			hmods.Untrack("udp:" + a.String())
+			hmods.Untrack(a.Network() + ":" + a.String())
 		}
 	}()
 	r := fw.Rand(c.Seed, "c09sched", s.Index)
